@@ -38,7 +38,27 @@ func verifMathOperand() (in system.Collection, n *big.Int, k int) {
 	}
 	if verifrt.NondetBool("isInteger") {
 		i := verifrt.NondetInt32("i")
+		if verifrt.NondetBool("element") {
+			return system.Collection{&dtpb.Integer{Value: i}}, big.NewInt(int64(i)), 0
+		}
 		return system.Collection{system.Integer(i)}, big.NewInt(int64(i)), 0
+	}
+	if verifrt.NondetBool("element") {
+		// a FHIR decimal element (a Quantity's value reached by navigation) carries its digits as text: an integral
+		// part next to the 32-bit limits or small, and eleven arbitrary decimal places - with the larger integral parts more digits than a float64 holds
+		const places = 11
+		sign := []string{"", "-"}[verifrt.Choose("el.sign", 2)]
+		whole := []string{"0", "41", "2147483646", "2147483647", "2147483648"}[verifrt.Choose("el.whole", 5)]
+		frac := verifrt.NondetStringN("el.frac", places)
+		n, _ := new(big.Int).SetString(whole, 10)
+		for i := 0; i < places; i++ {
+			verifrt.Assume(frac[i] >= '0' && frac[i] <= '9')
+			n = new(big.Int).Add(new(big.Int).Mul(n, big.NewInt(10)), big.NewInt(int64(frac[i]-'0')))
+		}
+		if sign == "-" {
+			n = new(big.Int).Neg(n)
+		}
+		return system.Collection{&dtpb.Decimal{Value: sign + whole + "." + frac}}, n, places
 	}
 	sh := shapes[verifrt.Choose("shape", len(shapes))]
 	d := verifrt.NondetDecimalDigits("d", sh[0], sh[1])
@@ -112,7 +132,11 @@ func VerifHarness_C08_Abs() {
 	in, n, k := verifMathOperand()
 	want := new(big.Int).Abs(n)
 	res, err := Abs(verifCtx(), in)
-	if i, isInt := in[0].(system.Integer); isInt {
+	i, isInt := in[0].(system.Integer)
+	if el, isEl := in[0].(*dtpb.Integer); isEl {
+		i, isInt = system.Integer(el.Value), true // an integer element is an Integer
+	}
+	if isInt {
 		if i == math.MinInt32 {
 			verifrt.Assert(err != nil || len(res) == 0, "abs-of-min-integer-is-not-a-number")
 		} else {
